@@ -197,6 +197,16 @@ def run(tier):
     wex = [b"a" * k for k in (1, 2, 3, 50, 100, 109, 110, 111, 118, 119, 120, 121, 130)] + [b"b" * k + b"0" for k in (1, 60, 108, 109, 110, 119, 120)] + [b"ab0c", b"0", b"a0a0"]
     jobs.append(dict(groups=[H.Group([("WA", True)], wr, "WA", b"a0", 3, wex, label="wide:acclist")], options=["reject"], api="NR", cdefs=[], flex_args=["-8"],
                      knobs={"VF_BUFSIZES": "0"}, tag="wide-acclist/reject", point=("-Cem", 0, 8, "-B", 0, "NR", 0), driver_args=["-H", "4000"], wide="yy_acclist"))
+    # a class shared by NUL and ordinary characters, for 1..10 equivalence classes, in every table representation that keeps classes
+    # (the full tables get or do not get a separate NUL table depending on where NUL's class falls) - round-2 seed C02-r2m1
+    from .c04 import shared_class_groups
+    for tb in ("-Cfe", "-Cfae", "-CFe", "-CFae", "-Cem", "-Ce", "-Cae"):
+        for extra, g in shared_class_groups():
+            jobs.append(dict(groups=[g], options=[], api="NR", cdefs=[], flex_args=[tb, "-8"], knobs={"VF_BUFSIZES": "0,2"}, tag="nul-shared%s/+%d" % (tb, extra),
+                             point=(tb, 0, 8, "-B", 0, "NR", 0), driver_args=["-H", "400"]))
+    # fast tables wider than 16 bits: yy_transition with more than 32767 entries but fewer states (offset type) - round-2 seed C02-r2m3
+    jobs.append(dict(groups=packer_groups(20 if quick else 40, start=2000), options=[], api="NR", cdefs=[], flex_args=["-CF", "-8"], knobs={"VF_BUFSIZES": "0"},
+                     tag="wide-transition/-CF", point=("-CF", 0, 8, "-B", 0, "NR", 0), driver_args=["-H", "4000"], wide="yy_transition"))
     ran = refused_ok = 0
     execs = nontriv = 0
     cfg_behaving = set()
